@@ -318,6 +318,18 @@ def islands_world(variant):
        region is the island, annotated introns of a reported known isoform lie outside it; island B also carries a novel isoform
        (exon 5 skipped).  variant 1: a second gene right at the chromosome start (read region starting at base 1)"""
     from vlib import worlds as W, syn
+    if variant == 4:
+        # a locus longer than 32 kb (split into sub-regions at coverage valleys): a read of the two-exon gene GL with a third exon 20 kb
+        # further reaches beyond the sub-region it is processed in; all its introns are GT-AG
+        w = W.base_world(1, 45000)
+        ex = [[1001, 1300], [20001, 20300]]
+        w["genes"].append({"id": "GL", "chr": "chr1", "strand": "+", "transcripts": [{"id": "TL", "exons": ex}]})
+        syn.plant_for_transcripts(w)
+        W.add_sites_for_blocks(w, "chr1", ex + [[40001, 40300]], "+")
+        W.dedup_sites(w)
+        w["reads"] = [W.read_of("long_%d" % i, "chr1", ex + [[40001, 40300]]) for i in range(1)] + \
+                     [W.read_of("fsm_%d" % i, "chr1", ex) for i in range(3)]
+        return w
     w = W.base_world(1, 12000)
     ex = [[2001 + 600 * i, 2200 + 600 * i] for i in range(6)]
     w["genes"].append({"id": "GI", "chr": "chr1", "strand": "+", "transcripts": [{"id": "TI", "exons": ex}]})
@@ -539,7 +551,7 @@ def run(ctx):
     n = 3 if quick else 4
     orders = sorted(set(itertools.product("lr", repeat=n)) - {("l",) * n, ("r",) * n})
     jobs = [("anti", o, ctx.scratch) for o in orders] + [("antinovel", (v, lvl), ctx.scratch) for v in (0, 1, 2) for lvl in ("all", "auto")] + \
-        [("islands", (v, lvl), ctx.scratch) for v in (0, 1, 2, 3) for lvl in ("auto", "all")] + \
+        [("islands", (v, lvl), ctx.scratch) for v in (0, 1, 2, 3, 4) for lvl in ("auto", "all")] + \
         [("mixed", (n, lvl), ctx.scratch) for n in ((2,) if quick else (1, 2, 3)) for lvl in ("auto", "all")] + \
         [("shared", (mf, wk, rf, lvl), ctx.scratch) for mf in (0, 1, 2) for wk in (0, 1) for rf in (0, 1) for lvl in ("all", "auto")] + [("novel", lvl + sw, ctx.scratch) for lvl in ("auto", "only_canonical", "only_stranded", "all") for sw in ("", "/swap", "/nopolya")]
     nchecked = 0
